@@ -419,6 +419,38 @@ def received (db : Db) (ig : IgnoreDb) (defaultIgnore : Bool) (now : Int) (h : S
   | .ok false => .silent
   | .ok true => ownerDoPrivmsg db ig defaultIgnore now h
 
+/-- outcome of the flood guard of `Owner.doPrivmsg` -/
+inductive Flood
+  | pass
+  /-- `ircdb.ignores.add(banmask, time.time() + punishment)`, optional notice, `return` -/
+  | punished (banmask : Str) (expires : Int)
+deriving DecidableEq, Repr
+
+/-- the flood guard: `queued` = commands from this host still inside the interval window (this one
+included), `trusted` = `ircdb.checkCapability(msg.prefix, 'trusted')` (only evaluated when the
+first two tests hold), `banmask` = `conf.supybot.protocols.irc.banmask.makeBanmask(msg.prefix)` -/
+def floodGuard (floodOn : Bool) (queued maximum : Nat) (trusted : R Bool) (banmask : Str)
+    (now punishment : Int) : R Flood :=
+  if floodOn && decide (queued > maximum) then
+    match trusted with
+    | .error e => .error e
+    | .ok true => .ok .pass
+    | .ok false => .ok (.punished banmask (now + punishment))
+  else .ok .pass
+
+/-- `Owner.doPrivmsg` with the flood guard: ignore test, then flood guard, then dispatch.  Returns
+the dispatch decision and the ignore database afterwards. -/
+def ownerDoPrivmsgFlood (db : Db) (ig : IgnoreDb) (defaultIgnore : Bool) (now : Int) (h : Str)
+    (floodOn : Bool) (queued maximum : Nat) (banmask : Str) (punishment : Int) : Dispatch × IgnoreDb :=
+  match checkIgnored db ig defaultIgnore now h with
+  | .ok true => (.silent, ig)
+  | .error e => (.crashed e, ig)
+  | .ok false =>
+    match floodGuard floodOn queued maximum (db.checkCapability now h trustedS) banmask now punishment with
+    | .error e => (.crashed e, ig)
+    | .ok .pass => (.dispatch, ig)
+    | .ok (.punished bm t) => (.silent, { entries := ig.entries ++ [(bm, t)] })
+
 /-! ## 7. configuration writes -/
 
 def supybotS : Str := ['s', 'u', 'p', 'y', 'b', 'o', 't']
